@@ -1,14 +1,21 @@
 """C17 Completed disk cache entries survive a clean restart - E3, all short operation histories.
 
 Alphabet over two URLs u1,u2: S1(u) / S3(u) = plain GET with the origin ready to serve a 1-slot / 3-slot
-object, O(u) = reload (overwrite with a new version of the other size), P(u) = PURGE.  Every history of
-length <= 3 (quick) / <= 4 (thorough) is run against the real squid binary on a rock and on a ufs cache_dir
-with ample space (cache_mem 0, so every hit is a disk hit); histories are independent (each uses its own
-pair of URLs) and are batched into one instance lifetime.  Before the clean shutdown (SIGTERM under virtual
-time) every URL of the reference map is requested once more: an entry counts as "completely stored" only if
-that request is a disk hit with the right bytes.  After the restart on the same directory every URL is
-requested again.  Oracle: each URL that the reference map holds (completely stored, not purged since) is
-served without contacting the origin, byte-identical to the mapped version.
+object, O(u) = reload (overwrite with a new version of the other size), P(u) = PURGE.  A history is run
+against the real squid binary (-N, cache_mem 0, so every hit is a disk hit) on a rock or a ufs cache_dir
+with ample space; then every URL of the reference map is requested once more (an entry counts as
+"completely stored" only if that request is a disk hit with the right bytes), squid is shut down cleanly
+(SIGTERM under virtual time), restarted on the same directory, and every URL is requested again.
+Oracle: each URL the reference map holds (completely stored, not purged since) is served without
+contacting the origin, byte-identical to the mapped version.
+
+Two ways of running the histories (each history always has its own pair of URLs):
+  batched  - many independent histories in one instance lifetime, one shutdown/restart for all of them
+             (2 starts per ~40-150 histories);
+  isolated - one history per lifetime: history, shutdown, restart, probe, and the restarted instance then
+             runs the next history (1 start per history).  Needed for rock, whose allocator hands out the
+             lowest free slot: in a batch the slots a history leaves behind are overwritten by its successors,
+             so what a restart would have made of them is never seen.
 """
 import itertools
 import os
@@ -17,7 +24,7 @@ import time
 
 from vverif import cachesim as cs
 from vverif import lockstep as ls
-from vverif.core import Result, Violation, HarnessError
+from vverif.core import Result, Violation, HarnessError, load_findings
 
 LEVEL = 'fault_enumeration'
 
@@ -26,13 +33,15 @@ SIZE3 = 9500      # three rock slots / three ufs data writes
 OPS = ['S1', 'S3', 'O', 'P']
 ALPHABET = [(o, u) for o in OPS for u in (1, 2)]
 STORE_OF = {'rock': 'rock-ample', 'ufs': 'ufs-ample'}
+ROCK_SLOT = 4096
 BATCH = 150
+STALE_KEY = 'rock:lost:stale-slots-of-replaced-version'
 
 
-def histories(maxlen):
+def histories(maxlen, alphabet=ALPHABET, minlen=1):
     out = []
-    for n in range(1, maxlen + 1):
-        out += [list(h) for h in itertools.product(ALPHABET, repeat=n)]
+    for n in range(minlen, maxlen + 1):
+        out += [list(h) for h in itertools.product(alphabet, repeat=n)]
     return out
 
 
@@ -44,6 +53,18 @@ def projection(h, u):
     return ','.join(o for o, uu in h if uu == u)
 
 
+def plan(ctx):
+    """Work of a tier: list of (mode, store, [history...])."""
+    single = [(o, 1) for o in OPS]
+    if ctx.quick:
+        iso = histories(2) + histories(3, single, 3)
+        bat = histories(3)
+    else:
+        iso = histories(3) + histories(4, single, 4)
+        bat = histories(4)
+    return {'isolated': {'rock': iso}, 'batched': {'rock': bat, 'ufs': bat}}
+
+
 class Model:
     """Reference map of one history: url -> (version, size) currently held by the cache."""
 
@@ -52,102 +73,161 @@ class Model:
         self.nextver = {1: 1, 2: 1}
 
 
-def run_batch(ctx, shard, store, template, batch):
-    """batch: list of (hid, history).  Returns dict(results: {hid: dict}, transcript, starts, ...)."""
+def stale_same_key_slots(path, tag):
+    """rock only: find the inode slot holding the reply header with X-V: <tag>, walk its chain, and return
+    (slots in the chain, other non-empty slots on disk that carry the same store key), or None."""
+    import struct
+    slots = {}
+    try:
+        with open(path, 'rb') as f:
+            f.seek(16384)
+            i = 0
+            while True:
+                b = f.read(ROCK_SLOT)
+                if len(b) < cs.ROCK_HDR:
+                    break
+                k0, k1, esz, psz, ver, first, nxt = struct.unpack('<QQQIIii', b[:cs.ROCK_HDR])
+                if first or nxt or psz:
+                    slots[i] = (k0, k1, first, nxt, ver, (b'X-V: ' + tag.encode() + b'\r\n') in b[cs.ROCK_HDR:cs.ROCK_HDR + psz])
+                i += 1
+    except OSError:
+        return None
+    inodes = [i for i, s in slots.items() if s[5] and s[2] == i]
+    if len(inodes) != 1:
+        return None
+    ino = inodes[0]
+    key = slots[ino][:2]
+    chain = []
+    i = ino
+    while i >= 0 and i in slots and i not in chain:
+        chain.append(i)
+        i = slots[i][3]
+    stale = sorted(i for i, s in slots.items() if s[:2] == key and i not in chain)
+    return chain, stale, {i: slots[i][4] for i in chain + stale}
+
+
+def run_groups(ctx, shard, store, template, groups, dump=False):
+    """groups: list of lists of (hid, history).  Each group is run in one instance lifetime and followed by
+    pre-shutdown probes, clean shutdown, restart and probes; the restarted instance runs the next group.
+    Returns dict(results {hid: ...}, transcript, starts, anomalies, kicks)."""
     cw = cs.CacheWorld(ctx, 'b%d' % shard, shard, STORE_OF[store], template)
     out = {}
     tr = []
     anomalies = []
+    seq = 0
     try:
         r = cw.first_life(count=False)
         if r:
             raise HarnessError('instance did not start: ' + r)
-        models = {}
-        for slot, (hid, h) in enumerate(batch):
-            md = Model()
-            models[hid] = md
-            for o, u in h:
-                uidx = 10 * (slot + 1) + u
-                if o in ('S1', 'S3'):
-                    size = SIZE1 if o == 'S1' else SIZE3
-                    ver = md.nextver[u]
-                    ex = cw.store(uidx, ver, size, must_fetch=False)
-                    if ex is None:
-                        raise HarnessError('squid died during %s: %s' % (hist_str(h), cw.sq.health_problems()))
-                    if ex.origin_requests:
+        for group in groups:
+            models = {}
+            uof = {}
+            for hid, h in group:
+                seq += 1
+                md = Model()
+                models[hid] = md
+                uof[hid] = {1: 10 * seq + 1, 2: 10 * seq + 2}
+                for o, u in h:
+                    uidx = uof[hid][u]
+                    if o in ('S1', 'S3'):
+                        size = SIZE1 if o == 'S1' else SIZE3
+                        ver = md.nextver[u]
+                        ex = cw.store(uidx, ver, size, must_fetch=False)
+                        if ex is None:
+                            raise HarnessError('squid died during %s: %s' % (hist_str(h), cw.sq.health_problems()))
+                        if ex.origin_requests:
+                            md.nextver[u] += 1
+                            if u in md.map:
+                                anomalies.append('%s [%s]: %s(u%d) went to the origin although the model holds %r' % (store, hist_str(h), o, u, md.map[u]))
+                            md.map[u] = (ver, size)
+                            ok = ex.response and ex.response.complete and ex.response.body == cs.body_of(uidx, ver, size)
+                        else:
+                            ok = u in md.map and ex.response and ex.response.complete and ex.response.body == cs.body_of(uidx, *md.map[u])
+                        if not ok:
+                            anomalies.append('%s [%s]: response to %s(u%d) is not the expected body' % (store, hist_str(h), o, u))
+                    elif o == 'O':
+                        ver = md.nextver[u]
+                        size = SIZE1 if (u in md.map and md.map[u][1] == SIZE3) else SIZE3
+                        ex = cw.store(uidx, ver, size, reload=True)
+                        if ex is None:
+                            raise HarnessError('squid died during %s: %s' % (hist_str(h), cw.sq.health_problems()))
                         md.nextver[u] += 1
-                        if u in md.map:
-                            anomalies.append('%s %s: %s(u%d) went to the origin although the model holds %r' % (store, hist_str(h), o, u, md.map[u]))
                         md.map[u] = (ver, size)
-                        ok = ex.response and ex.response.complete and ex.response.body == cs.body_of(uidx, ver, size)
                     else:
-                        ok = u in md.map and ex.response and ex.response.complete and ex.response.body == cs.body_of(uidx, *md.map[u])
-                    if not ok:
-                        anomalies.append('%s %s: response to %s(u%d) is not the expected body' % (store, hist_str(h), o, u))
-                elif o == 'O':
-                    ver = md.nextver[u]
-                    size = SIZE1 if (u in md.map and md.map[u][1] == SIZE3) else SIZE3
-                    ex = cw.store(uidx, ver, size, reload=True)
-                    if ex is None:
-                        raise HarnessError('squid died during %s: %s' % (hist_str(h), cw.sq.health_problems()))
-                    md.nextver[u] += 1
-                    md.map[u] = (ver, size)
-                else:
-                    st = cw.purge(uidx)
-                    if st is None:
-                        raise HarnessError('squid died during %s: %s' % (hist_str(h), cw.sq.health_problems()))
-                    if st not in (200, 404):
-                        raise HarnessError('PURGE answered %s' % st)
-                    md.map.pop(u, None)
-                cw.sq.advance(1000, rounds=1)
-        cw.sq.advance(2000)
-        # "completely stored": a disk hit with the right bytes right before the shutdown
-        stored = {}
-        for slot, (hid, h) in enumerate(batch):
-            md = models[hid]
-            stored[hid] = {}
-            for u in sorted(md.map):
-                uidx = 10 * (slot + 1) + u
-                cw.served[uidx] = [md.map[u]]
-                p = cw.probe(uidx)
-                if p.kind == 'hit' and not p.problem and p.ver == md.map[u][0]:
-                    stored[hid][u] = md.map[u]
-                else:
-                    anomalies.append('%s %s: u%d is not a clean disk hit before the shutdown (%s %s)' % (store, hist_str(h), u, p.kind, p.problem))
-        hp = cw.sq.health_problems()
-        if hp:
-            raise HarnessError('instance unhealthy before shutdown: %s' % hp)
-        cw.sq.advance(2000)
-        rc = cw.shutdown()
-        if rc != 0:
-            raise HarnessError('clean shutdown returned %r: %s' % (rc, cw.sq.cache_log()[-600:]))
-        rr = cw.restart()
-        if rr is not None:
-            raise HarnessError('restart after a clean shutdown failed: ' + rr)
-        for slot, (hid, h) in enumerate(batch):
-            res = {'hist': h, 'expected': 0, 'violations': [], 'purged_hits': 0}
-            for u in (1, 2):
-                uidx = 10 * (slot + 1) + u
-                exp = stored[hid].get(u)
-                cw.served[uidx] = [exp] if exp else list(cw.served.get(uidx, []))
-                p = cw.probe(uidx)
-                tr.append('%d:%s' % (hid, p.summary()))
-                if exp is None:
-                    if p.kind == 'hit' and projection(h, u):
-                        res['purged_hits'] += 1
-                    continue
-                res['expected'] += 1
-                want = cs.tag_of(uidx, exp[0])
-                if p.kind != 'hit':
-                    res['violations'].append(('lost', u, 'u%d (%s, %d bytes; operations on it: %s) was a disk hit before the clean shutdown but after the restart '
-                                              'the request went to the origin (%s)' % (u, want, exp[1], projection(h, u), p.kind)))
-                elif p.problem or p.ver != exp[0]:
-                    res['violations'].append(('wrong-bytes', u, 'u%d (%s; operations on it: %s): hit after restart differs: %s' % (
-                        u, want, projection(h, u), p.problem or 'served version %s' % p.tag)))
-            out[hid] = res
-        hp = cw.sq.health_problems()
-        if hp:
-            raise HarnessError('restarted instance unhealthy: %s' % hp)
+                        st = cw.purge(uidx)
+                        if st is None:
+                            raise HarnessError('squid died during %s: %s' % (hist_str(h), cw.sq.health_problems()))
+                        if st not in (200, 404):
+                            raise HarnessError('PURGE answered %s' % st)
+                        md.map.pop(u, None)
+                    cw.quiesce()
+                    cw.sq.advance(1000, rounds=1)
+            cw.sq.advance(2000)
+            # "completely stored": a disk hit with the right bytes right before the shutdown
+            stored = {}
+            for hid, h in group:
+                md = models[hid]
+                stored[hid] = {}
+                for u in sorted(md.map):
+                    uidx = uof[hid][u]
+                    cw.served[uidx] = [md.map[u]]
+                    p = cw.probe(uidx)
+                    if p.kind == 'hit' and not p.problem and p.ver == md.map[u][0]:
+                        stored[hid][u] = md.map[u]
+                    else:
+                        anomalies.append('%s [%s]: u%d is not a clean disk hit before the shutdown (%s %s)' % (store, hist_str(h), u, p.kind, p.problem))
+            hp = cw.sq.health_problems()
+            if hp:
+                raise HarnessError('instance unhealthy before shutdown: %s' % hp)
+            cw.quiesce()
+            cw.sq.advance(2000)
+            rc = cw.shutdown()
+            if rc != 0:
+                raise HarnessError('clean shutdown returned %r: %s' % (rc, cw.sq.cache_log()[-600:]))
+            db = os.path.join(cw.sq.cache_path, 'rock')
+            if dump and store == 'rock':
+                print('rock db after the clean shutdown:')
+                for l in cs.dump_rock(db, ROCK_SLOT):
+                    print('  ' + l)
+            rr = cw.restart()
+            if rr is not None:
+                raise HarnessError('restart after a clean shutdown failed: ' + rr)
+            if dump:
+                print('cache.log of the restarted instance:')
+                print('\n'.join(l for l in cw.sq.cache_log().split('\n') if 'ebuild' in l or 'WARNING' in l or 'ntries' in l or 'nvalid' in l)[:3000])
+            for hid, h in group:
+                res = {'hist': h, 'expected': 0, 'violations': [], 'purged_hits': 0}
+                for u in (1, 2):
+                    uidx = uof[hid][u]
+                    exp = stored[hid].get(u)
+                    cw.served[uidx] = [exp] if exp else list(cw.served.get(uidx, []))
+                    p = cw.probe(uidx)
+                    tr.append('%d:%s' % (hid, p.summary()))
+                    if exp is None:
+                        if p.kind == 'hit' and projection(h, u):
+                            res['purged_hits'] += 1
+                        continue
+                    res['expected'] += 1
+                    want = cs.tag_of(uidx, exp[0])
+                    if p.kind != 'hit':
+                        key = '%s:lost:%s' % (store, projection(h, u))
+                        why = ''
+                        if store == 'rock':
+                            st = stale_same_key_slots(db, want)
+                            if st and st[1]:
+                                key = STALE_KEY
+                                why = ('; the db file holds its complete chain in slots %s (versions %s) plus %d more slot(s) %s with the same store key left over '
+                                       'from a replaced/purged version (versions %s), which makes the rebuild discard the entry' % (
+                                           st[0], sorted(set(st[2][i] for i in st[0])), len(st[1]), st[1], sorted(set(st[2][i] for i in st[1]))))
+                        res['violations'].append((key, 'u%d (%s, %d bytes; operations on it: %s) was a disk hit right before the clean shutdown but after the restart '
+                                                  'the request went to the origin%s' % (u, want, exp[1], projection(h, u), why)))
+                    elif p.problem or p.ver != exp[0]:
+                        res['violations'].append(('%s:wrong-bytes:%s' % (store, projection(h, u)), 'u%d (%s; operations on it: %s): hit after restart differs: %s' % (
+                            u, want, projection(h, u), p.problem or 'served version %s' % p.tag)))
+                out[hid] = res
+            hp = cw.sq.health_problems()
+            if hp:
+                raise HarnessError('restarted instance unhealthy: %s' % hp)
         return {'results': out, 'transcript': ' '.join(tr), 'starts': cw.starts, 'anomalies': anomalies,
                 'kicks': cw.kicks + cw.sq.kicks}
     finally:
@@ -155,7 +235,7 @@ def run_batch(ctx, shard, store, template, batch):
 
 
 def make_template(ctx, store):
-    """`squid -z` once per store; every batch starts from a copy."""
+    """`squid -z` once per store; every execution starts from a copy."""
     sk = STORE_OF[store]
     cd, conf = cs.STORES[sk]
     sq = ls.Squid(ctx, 'tmpl-' + store, cs.squid_port_base(ctx.pid, -1), cache_dir=cd, conf=conf)
@@ -165,84 +245,103 @@ def make_template(ctx, store):
     return sq.cache_path, sq.dir
 
 
-def key_of(store, kind, h, u):
-    return '%s:%s:%s' % (store, kind, projection(h, u))
-
-
 ASSUME = [
     'the real ASan squid binary (-N, cache_mem 0) under the lock-step/virtual-time shim; the driver plays client and origin; shutdown is SIGTERM with shutdown_lifetime 1 s of virtual time',
-    'independent histories (disjoint URLs) share one instance lifetime; a violating history is re-run alone on a fresh directory before it is reported',
-    '"completely stored" is observed, not assumed: the URL was served as a disk hit with the right bytes immediately before the shutdown',
+    'every history uses its own pair of URLs; batched histories share one instance lifetime, isolated ones are separated by a clean restart; a violating history is re-run alone on a fresh directory before it is reported',
+    '"completely stored" is observed, not assumed: the URL was served as a disk hit with the right bytes immediately before the shutdown (entries displaced earlier, e.g. by a rock anchor collision, are thereby excluded as evicted)',
     'aufs/diskd are not run (same UFSSwapDir/rebuild code as ufs, different I/O strategy)',
 ]
-RULE = ('one case = (store, history): a sequence of <= L operations over {S1,S3,O,P} x {u1,u2}, then clean shutdown, restart, probe; non-trivial = '
+RULE = ('one case = (mode, store, history): a sequence of operations over {S1,S3,O,P} x {u1,u2}, then clean shutdown, restart, probe; non-trivial = '
         'histories after which the reference map holds at least one completely stored, not purged URL (so the restart oracle compared bytes)')
 
 
 def run(ctx):
     ls.build_squid(ctx)
-    L = 3 if ctx.quick else 4
-    hs = histories(L)
-    stores = ['rock', 'ufs']
-    if os.environ.get('VERIF_C17_STORES'):
-        stores = os.environ['VERIF_C17_STORES'].split(',')
+    pl = plan(ctx)
+    only = os.environ.get('VERIF_C17_STORES')      # development aid
+    listed = {f.get('key') for f in load_findings().get('findings', []) if f.get('property') == ctx.pid}
+    stores = sorted({s for m in pl.values() for s in m if not only or s in only.split(',')})
     tmpl = {}
     tdirs = []
     for s in stores:
         tmpl[s], d = make_template(ctx, s)
         tdirs.append(d)
-    # work items: (store, [(hid, history)...]) batches, dealt round-robin to shards
+    # work items: (mode, store, groups) - isolated chains first (they cost the most), dealt round-robin to shards
     items = []
-    for s in stores:
-        ids = list(enumerate(hs))
-        per = max(1, min(BATCH, (len(ids) + ctx.ncpu - 1) // ctx.ncpu))
-        for i in range(0, len(ids), per):
-            items.append((s, ids[i:i + per]))
+    total = 0
+    for mode in ('isolated', 'batched'):
+        for s, hs in sorted(pl[mode].items()):
+            if s not in stores:
+                continue
+            ids = list(enumerate(hs))
+            total += len(ids)
+            if mode == 'isolated':
+                n = ctx.ncpu * (1 if ctx.quick else 3)
+                for i in range(n):
+                    part = ids[i::n]
+                    if part:
+                        items.append((mode, s, [[x] for x in part]))
+            else:
+                per = max(1, min(BATCH, (len(ids) + ctx.ncpu - 1) // ctx.ncpu))
+                for i in range(0, len(ids), per):
+                    items.append((mode, s, [ids[i:i + per]]))
     t_end = ctx.t0 + ctx.deadline_s
 
     def worker(shard, its):
         res = {'done': [], 'deadline_hit': False, 'starts': 0, 'replays': 0, 'anomalies': [], 'kicks': 0, 'violations': []}
-        longest = [20.0]
-        for n, (store, batch) in enumerate(its):
-            if time.time() + 1.5 * longest[0] + 5 > t_end:
+        per_start = [6.0]
+        confirmed = set()
+        for n, (mode, store, groups) in enumerate(its):
+            need = per_start[0] * (len(groups) + 1) * 1.3 + 10
+            if time.time() + need > t_end:
                 res['deadline_hit'] = True
-                break
+                continue
             t = time.time()
-            r = run_batch(ctx, shard, store, tmpl[store], batch)
-            longest[0] = max(longest[0], time.time() - t)
+            r = run_groups(ctx, shard, store, tmpl[store], groups)
+            per_start[0] = max(per_start[0], (time.time() - t) / max(1, r['starts']))
             res['starts'] += r['starts']
             res['kicks'] += r['kicks']
             res['anomalies'] += r['anomalies'][:5]
             if n == 0 and shard < 2:
-                r2 = run_batch(ctx, shard, store, tmpl[store], batch)
+                r2 = run_groups(ctx, shard, store, tmpl[store], groups)
                 res['replays'] += 1
                 res['starts'] += r2['starts']
                 if r2['transcript'] != r['transcript']:
-                    raise HarnessError('nondeterminism: batch of %s gave different post-restart observations on two runs' % store)
+                    raise HarnessError('nondeterminism: %s %s work item gave different post-restart observations on two runs' % (mode, store))
             for hid, hr in sorted(r['results'].items()):
                 vs = []
-                if hr['violations']:
-                    # replay before report: the history alone, twice
-                    alone = [run_batch(ctx, shard, store, tmpl[store], [(hid, hr['hist'])]) for _ in range(2)]
-                    res['replays'] += 2
-                    res['starts'] += sum(a['starts'] for a in alone)
-                    same = [sorted((k, u) for k, u, _ in a['results'][hid]['violations']) for a in alone]
-                    mine = sorted((k, u) for k, u, _ in hr['violations'])
-                    if same[0] == mine and same[1] == mine:
-                        vs = [(key_of(store, k, hr['hist'], u), '%s, history [%s] then clean shutdown and restart: %s' % (store, hist_str(hr['hist']), w),
-                               {'store': store, 'history': hr['hist']}) for k, u, w in hr['violations']]
-                    else:
-                        rb = run_batch(ctx, shard, store, tmpl[store], batch)
+                keys = sorted(k for k, _ in hr['violations'])
+                if keys and not all(k in confirmed for k in keys):
+                    # replay before report: the history alone on a fresh directory, twice (once for recorded findings)
+                    reps = 1 if all(k in listed for k in keys) else 2
+                    same = True
+                    for _ in range(reps):
+                        a = run_groups(ctx, shard, store, tmpl[store], [[(hid, hr['hist'])]])
                         res['replays'] += 1
-                        if sorted((k, u) for k, u, _ in rb['results'][hid]['violations']) != mine:
+                        res['starts'] += a['starts']
+                        same = same and sorted(k for k, _ in a['results'][hid]['violations']) == keys
+                    if same:
+                        confirmed.update(keys)
+                    else:
+                        # depends on what ran before it in the same directory: re-run the whole work item
+                        rb = run_groups(ctx, shard, store, tmpl[store], groups)
+                        res['replays'] += 1
+                        res['starts'] += rb['starts']
+                        if sorted(k for k, _ in rb['results'][hid]['violations']) != keys:
                             raise HarnessError('violation of history [%s] on %s is not reproducible' % (hist_str(hr['hist']), store))
-                        vs = [('%s:%s:batch-dependent:%s' % (store, k, projection(hr['hist'], u)),
-                               '%s, history [%s] inside a batch of %d independent histories: %s' % (store, hist_str(hr['hist']), len(batch), w),
-                               {'store': store, 'batch': [hh for _, hh in batch], 'history': hr['hist']}) for k, u, w in hr['violations']]
-                    if time.time() > t_end - 30:
-                        res['deadline_hit'] = True
+                        upto = []
+                        for g in groups:
+                            upto.append([hh for _, hh in g])
+                            if any(i == hid for i, _ in g):
+                                break
+                        vs = [(k + ':context-dependent', '%s (%s), history [%s] after other histories in the same directory: %s' % (store, mode, hist_str(hr['hist']), w),
+                               {'store': store, 'groups': upto, 'history': hr['hist']}) for k, w in hr['violations']]
+                if keys and not vs:
+                    vs = [(k, '%s, history [%s] then clean shutdown and restart: %s' % (store, hist_str(hr['hist']), w),
+                           {'store': store, 'history': hr['hist']}) for k, w in hr['violations']]
                 res['violations'] += vs
-                res['done'].append({'store': store, 'hist': hr['hist'], 'expected': hr['expected'], 'viol': len(vs), 'purged_hits': hr['purged_hits']})
+                res['done'].append({'mode': mode, 'store': store, 'hist': hr['hist'], 'expected': hr['expected'], 'viol': [k for k, _, _ in vs],
+                                    'purged_hits': hr['purged_hits']})
         return res
     try:
         parts = ls.run_sharded(ctx, worker, items)
@@ -256,34 +355,37 @@ def run(ctx):
     nontrivial = sum(1 for d in done if d['expected'])
     expected = sum(d['expected'] for d in done)
     purged_hits = sum(d['purged_hits'] for d in done)
-    total = len(hs) * len(stores)
     if done and not vio and (nontrivial < len(done) // 3 or expected < nontrivial):
         raise HarnessError('vacuity guard: only %d of %d histories left a completely stored entry' % (nontrivial, len(done)))
-    if anomalies and not vio:
+    if len(anomalies) > max(20, len(done) // 10):
         # the reference model and squid disagreed before the restart (not C17's subject, but it weakens the run)
-        if len(anomalies) > len(done) // 20:
-            raise HarnessError('reference model and squid disagree in-life too often: %r' % anomalies[:3])
+        raise HarnessError('reference model and squid disagree in-life too often (%d): %r' % (len(anomalies), anomalies[:3]))
     step = max(1, len(done) // 6)
-    samples = [{'store': d['store'], 'history': hist_str(d['hist']), 'urls_expected_after_restart': d['expected'],
+    samples = [{'mode': d['mode'], 'store': d['store'], 'history': hist_str(d['hist']), 'urls_expected_after_restart': d['expected'],
                 'violations': d['viol']} for d in done[::step][:6]]
+    samples += [{'mode': d['mode'], 'store': d['store'], 'history': hist_str(d['hist']), 'urls_expected_after_restart': d['expected'],
+                 'violations': d['viol']} for d in done if d['viol']][:2]
     obs = []
     if purged_hits:
-        obs.append('%d URLs that the model does not hold (purged, or never completely stored) were nevertheless served as hits with consistent bytes after the restart '
-                   '(allowed by C17; rock does not erase purged slots on disk)' % purged_hits)
-    obs += ['in-life disagreement: ' + a for a in anomalies[:5]]
-    per_store = {}
+        obs.append('%d URLs that the model does not hold (purged, or not a disk hit before the shutdown) were nevertheless served as hits with consistent bytes after '
+                   'the restart (allowed by C17; rock does not erase the slots of purged entries)' % purged_hits)
+    obs += ['in-life disagreement (entry displaced before the shutdown, e.g. rock anchor collision): ' + a for a in anomalies[:4]]
+    per = {}
     for d in done:
-        ps = per_store.setdefault(d['store'], {'histories': 0, 'with_expected_urls': 0, 'violating': 0})
+        ps = per.setdefault('%s/%s' % (d['mode'], d['store']), {'histories': 0, 'with_expected_urls': 0, 'violating': 0})
         ps['histories'] += 1
         ps['with_expected_urls'] += 1 if d['expected'] else 0
         ps['violating'] += 1 if d['viol'] else 0
     cov = {'evaluations': len(done), 'distinct_nontrivial': nontrivial, 'rule': RULE, 'samples': samples,
            'exhaustive': len(done) == total and not any(p['deadline_hit'] for p in parts),
-           'histories_total': total, 'max_history_length': L, 'alphabet': ['%s(u%d)' % a for a in ALPHABET],
-           'urls_compared_after_restart': expected, 'per_store': per_store,
+           'histories_total': total, 'alphabet': ['%s(u%d)' % a for a in ALPHABET],
+           'spaces': ('quick: isolated rock = all histories of length <= 2 over both URLs + all of length 3 over one URL; batched rock+ufs = all of length <= 3'
+                      if ctx.quick else
+                      'thorough: isolated rock = all histories of length <= 3 over both URLs + all of length 4 over one URL; batched rock+ufs = all of length <= 4'),
+           'urls_compared_after_restart': expected, 'per_mode_and_store': per,
            'squid_starts': sum(p['starts'] for p in parts), 'kicks': sum(p['kicks'] for p in parts),
-           'determinism_and_violation_replays': sum(p['replays'] for p in parts), 'batch_size': BATCH,
-           'hits_for_urls_outside_the_map': purged_hits}
+           'determinism_and_violation_replays': sum(p['replays'] for p in parts), 'batch_size_max': BATCH,
+           'in_life_disagreements': len(anomalies), 'hits_for_urls_outside_the_map': purged_hits}
     return Result(LEVEL, cov, vio, ASSUME, obs)
 
 
@@ -291,19 +393,25 @@ def replay(ctx, data):
     ls.build_squid(ctx)
     store = data['store']
     t, d = make_template(ctx, store)
+    target = [tuple(x) for x in data['history']]
     try:
-        hists = data.get('batch') or [data['history']]
-        batch = list(enumerate([[tuple(x) for x in h] for h in hists]))
-        r = run_batch(ctx, 0, store, t, batch)
+        gl = data.get('groups') or [[data['history']]]
+        groups = []
+        hid = 0
+        for g in gl:
+            gg = []
+            for h in g:
+                gg.append((hid, [tuple(x) for x in h]))
+                hid += 1
+            groups.append(gg)
+        r = run_groups(ctx, 0, store, t, groups, dump=(hid == 1))
     finally:
         shutil.rmtree(d, ignore_errors=True)
     vio = []
-    target = [tuple(x) for x in data['history']]
     for hid, hr in r['results'].items():
-        print(hist_str(hr['hist']), '->', hr['violations'] or 'ok')
+        print('[%s] ->' % hist_str(hr['hist']), hr['violations'] or 'ok')
         if hr['hist'] == target:
-            for k, u, w in hr['violations']:
-                key = key_of(store, k, hr['hist'], u) if not data.get('batch') else '%s:%s:batch-dependent:%s' % (store, k, projection(hr['hist'], u))
-                vio.append(Violation(key, w, data))
+            for k, w in hr['violations']:
+                vio.append(Violation(k + (':context-dependent' if data.get('groups') else ''), w, data))
     print(r['transcript'])
     return Result(LEVEL, {}, vio, ASSUME)
